@@ -19,12 +19,14 @@ import (
 	"fmt"
 	"io"
 	"net"
+	"os"
 	"runtime"
 	"sort"
 	"strconv"
 	"strings"
 	"sync"
 	"sync/atomic"
+	"syscall"
 	"testing"
 	"testing/synctest"
 	"time"
@@ -511,8 +513,20 @@ func (w *muxWorld) connOK(sessFail bool) {
 	w.settle(nil)
 }
 
+// the kinds of error a connection attempt really ends with, in rotation: an opaque one, a genuine net timeout (a peer
+// that drops SYNs; Go's net timeout errors also match context.DeadlineExceeded), connection refused, EOF
+var dialErrKinds = func() []error {
+	_, timeoutErr := net.DialTimeout("tcp", "127.0.0.1:9", time.Nanosecond)
+	if timeoutErr == nil || !errors.Is(timeoutErr, context.DeadlineExceeded) {
+		timeoutErr = &net.OpError{Op: "dial", Net: "tcp", Err: os.ErrDeadlineExceeded}
+	}
+	return []error{errors.New("scripted dial failure"), timeoutErr, &net.OpError{Op: "dial", Net: "tcp", Err: syscall.ECONNREFUSED}, io.EOF}
+}()
+
+var dialErrSeq atomic.Int64
+
 func (w *muxWorld) connErr() {
-	w.cp.ch <- connResult{err: errors.New("scripted dial failure")}
+	w.cp.ch <- connResult{err: dialErrKinds[int(dialErrSeq.Add(1))%len(dialErrKinds)]}
 	w.settle(nil)
 }
 
